@@ -12,7 +12,7 @@ git -C /repo worktree add -q --detach "$WT" HEAD || exit 2
 if ! git -C "$WT" apply "$SRC/patch.diff"; then echo "patch does not apply"; git -C /repo worktree remove --force "$WT"; exit 2; fi
 echo "== demo on unchanged tree"; PYTHONPATH=/repo/src /venv/bin/python "$SRC/demo.py" >/tmp/seed_demo_clean.txt 2>&1; RC_CLEAN=$?; tail -2 /tmp/seed_demo_clean.txt
 echo "== demo on changed tree"; PYTHONPATH="$WT/src" /venv/bin/python "$SRC/demo.py" >/tmp/seed_demo_mut.txt 2>&1; RC_MUT=$?; tail -2 /tmp/seed_demo_mut.txt
-echo "== test suite on changed tree"; (cd "$WT" && /venv/bin/python -m pytest -q -p no:cacheprovider 2>&1 | tail -1) | tee /tmp/seed_suite.txt
+echo "== test suite on changed tree"; (cd "$WT" && PYTHONPATH="$WT/src" /venv/bin/python -m pytest -q -p no:cacheprovider 2>&1 | tail -1) | tee /tmp/seed_suite.txt
 OUT="/tmp/seedout_$NAME"; rm -rf "$OUT"; mkdir -p "$OUT"
 RES=""
 for P in $PID $EXTRA; do
